@@ -289,7 +289,22 @@ static std::string obs_routes(TasmanianSparseGrid const &g, unsigned seed){
                             e_h = e_h && sclose(sum, y[(size_t) k], sc);
                         }
                     }
-                    if (i < 7){
+                    // differentiation weights are compared at nodes and at points that keep a distance from every
+                    // node coordinate (the closed-form derivative of the Fourier kernel loses digits like 1/distance^2)
+                    bool well_separated = true;
+                    {
+                        auto nodes = g.getPoints();
+                        for(int j=0; j<d && well_separated; j++){
+                            double lo = nodes[(size_t) j], hi = nodes[(size_t) j];
+                            for(int p=0; p<np; p++){ lo = std::min(lo, nodes[(size_t) p * d + j]); hi = std::max(hi, nodes[(size_t) p * d + j]); }
+                            double width = std::max(hi - lo, 1.0e-3);
+                            for(int p=0; p<np; p++){
+                                double dist = std::fabs(xi[(size_t) j] - nodes[(size_t) p * d + j]);
+                                if (dist != 0.0 && dist < 0.01 * width){ well_separated = false; break; }
+                            }
+                        }
+                    }
+                    if (i < 9 && well_separated){
                         try{
                             std::vector<double> jac; g.differentiate(xi, jac);
                             auto dw = g.getDifferentiationWeights(xi);
